@@ -304,6 +304,73 @@ def _nothing_kept(ctx, app):
                    construct='%s keeps nothing between runs' % name)
 
 
+def _reader_tables(ctx, mod, app):
+    """C18.4: download_batch selects rows whose name starts with
+    `<object>,` - the form of an event name in the trace tables; a finished
+    record is stored under the bare instance name, so the finished snapshots
+    are not read through it (every caller hands it one of the trace tables).
+    """
+    srv = ctx.index.module(SRV)
+    dl = mod.functions.get('download_batch')
+    ctx.require(dl is not None, '_zk.download_batch', rule='C18.4')
+    comma = any(isinstance(sub, ast.Constant) and isinstance(sub.value, str)
+                and "GLOB '{" in sub.value and "},*'" in sub.value
+                for sub in K.walk_no_nested(dl.node))
+    seen = 0
+    for m in (app, srv):
+        for func in m.all_functions() if hasattr(m, 'all_functions') \
+                else m.live_functions():
+            for call in K.calls(func.raw):
+                if not K.callee_text(call).endswith('download_batch'):
+                    continue
+                seen += 1
+                table = call.args[2] if len(call.args) > 2 else \
+                    K.kwarg(call, 'table')
+                ttxt = N.txt(table) if table is not None else ''
+                ok = ttxt.endswith('_SOW_TABLE') or not comma
+                ctx.ob('C18.4', func, call, ok,
+                       'download_batch (event-name prefix query) is used on '
+                       'a trace table (%s)' % ttxt,
+                       construct='download_batch table')
+    ctx.require(seen >= 2, 'callers of download_batch', rule='C18.4')
+
+
+def _history_loader(ctx):
+    """C18.5: the state API keeps every archived finished record
+    retrievable: the loader of a finished snapshot stores every row it reads
+    (a row skipped because the live copy still exists is lost once the
+    archiver deletes that copy - the snapshot is created before the batch is
+    deleted, so every row "is still live" when the snapshot first shows up).
+    """
+    mod = ctx.index.module('treadmill.api.state')
+    func = mod.functions.get('watch_finished_history') if mod else None
+    ctx.require(func is not None, 'api.state.watch_finished_history',
+                rule='C18.5')
+    hits = 0
+    for cb in [func] + list(func.nested_view().values()):
+        graph = ctx.cfg(cb)
+        for loop in [n for n in graph.nodes if n.kind == 'for' and
+                     '.execute(' in K.rtxt(cb, n.ast.iter)]:
+            body = K.loop_body_nodes(loop)
+            stores = [n for n in body if n.kind == 'stmt' and
+                      isinstance(n.ast, ast.Assign) and
+                      isinstance(n.ast.targets[0], ast.Subscript) and
+                      'history' in N.txt(n.ast.targets[0].value)]
+            hits += 1
+            skip = K.find_path(loop, [loop], cut_node=lambda n: n in stores,
+                               cut_edge=lambda e, lp=loop: e.src is lp and
+                               e.kind == 'done', follow_exc=False) \
+                if stores else []
+            ctx.ob('C18.5', cb, loop, bool(stores) and skip is None,
+                   'every row of a finished snapshot is loaded into the '
+                   'history', path=K.describe(skip) if skip else None,
+                   construct='snapshot rows all loaded')
+            K.exhaustive_loop(ctx, 'C18.5', cb, loop,
+                              'walk over the rows of a finished snapshot')
+    ctx.require(hits >= 1, 'row loop of the finished-history loader',
+                rule='C18.5')
+
+
 def _oldest_first(ctx):
     """C18.3: the server-trace archiver takes the oldest events first: the
     batch is the head of a merge by timestamp, and a merge orders nothing by
@@ -649,6 +716,8 @@ def check(ctx):
     _full_batches(ctx, app)
     _oldest_first(ctx)
     _nothing_kept(ctx, app)
+    _reader_tables(ctx, mod, app)
+    _history_loader(ctx)
     _keep_newest(ctx, mod)
     _schema(ctx, mod, up, app)
     _callers_and_readers(ctx, app)
